@@ -145,6 +145,8 @@ pub enum Op {
     /// method call whose single argument is a node of this frame (e.g. AuthZone::push(proof))
     CallRawWithNode { recv: N, method: String, node: Pass },
     CallFunctionRaw { pkg: PackageAddress, bp: String, func: String, args: Vec<u8> },
+    /// function call whose single argument is a node of this frame (e.g. FungibleProof::drop(proof))
+    CallFunctionWithNode { pkg: PackageAddress, bp: String, func: String, node: Pass },
     /// a proof-returning raw call: the returned proof goes to a register
     CallRawReturningNode { recv: N, method: String, args: Vec<u8> },
     // ---- auth
@@ -459,6 +461,14 @@ impl Probe {
                 api.call_function(*pkg, bp, func, args.clone())?;
                 "returned".into()
             }
+            Op::CallFunctionWithNode { pkg, bp, func, node } => {
+                let arg = match node {
+                    Pass::Own(n) => ScryptoValue::Custom { value: ScryptoCustomValue::Own(Own(f.node(n, api)?)) },
+                    Pass::Ref(n) => ScryptoValue::Custom { value: ScryptoCustomValue::Reference(Reference(f.node(n, api)?)) },
+                };
+                api.call_function(*pkg, bp, func, scrypto_encode(&ScryptoValue::Tuple { fields: vec![arg] }).unwrap())?;
+                "returned".into()
+            }
             Op::CallRawReturningNode { recv, method, args } => {
                 let node = f.node(recv, api)?;
                 let out = api.call_method(&node, method, args.clone())?;
@@ -484,6 +494,7 @@ fn op_label(op: &Op) -> String {
         Op::CallProbeFunction { bp, func, pass, .. } => format!("CallProbeFunction({bp},{func},{pass:?})"),
         Op::CallRaw { recv, module, method, .. } => format!("CallRaw({recv:?},{module:?},{method})"),
         Op::CallFunctionRaw { bp, func, .. } => format!("CallFunctionRaw({bp},{func})"),
+        Op::CallFunctionWithNode { bp, func, node, .. } => format!("CallFunctionWithNode({bp},{func},{node:?})"),
         Op::CallRawReturningNode { recv, method, .. } => format!("CallRawReturningNode({recv:?},{method})"),
         Op::Globalize { node, reservation, .. } => format!("Globalize({node:?},{reservation:?})"),
         Op::AssertRule(_) => "AssertRule".into(),
